@@ -304,6 +304,8 @@ func c14(r *core.Report) {
 	// read and its advance must share one critical section (shared with C10-ID-ATOMIC)
 	r.Rule("C14-ID-ATOMIC", "fragment ids are read and advanced in one critical section (or by one atomic add)", 2)
 	ruleFragIDAtomic(r, "C14-ID-ATOMIC")
+	r.Rule("C14-CHECK-THEN-INSERT", "p2pkeswarm's channel table inserts only on the miss edge of a lookup made under the same write lock", 1)
+	ruleCheckThenInsert(r, "C14-CHECK-THEN-INSERT")
 	r.Rule("C14-BORROW-RECV", "no alias of a received message's payload is written or outlives the function it was lent to", 9)
 	ruleBorrowRecv(r, h, newBorrowEngine(p, h), "C14-BORROW-RECV")
 
